@@ -16,7 +16,7 @@ func (Prop) Configs(tier string) []string {
 	return []string{"c-race", "c-race-purego", "c-race-nopclmul", "c-race-noaes", "c-race-noavx2", "c-race-aesni1"}
 }
 
-var lightScenario = map[string]bool{"S1-sm2-key": true, "S2-sm2-key-d=n-1": true, "S3-ecdh-key": true, "S9-sm3-constructors": true, "S10-sm2-public-key": true,
+var lightScenario = map[string]bool{"S24-sm2-kx-sessions-on-shared-keys": true, "S1-sm2-key": true, "S2-sm2-key-d=n-1": true, "S3-ecdh-key": true, "S9-sm3-constructors": true, "S10-sm2-public-key": true,
 	"S15-sm9-generated-key-two-unwraps": true, "S6a-sm2-singletons": true, "S16-keygen-on-shared-singletons": true}
 
 // tierDependent lists the scenarios whose shared objects are implemented differently per CPU dispatch tier
